@@ -203,7 +203,7 @@ func (s *Session) Connect(id int) *Client {
 	s.cmu.Lock()
 	s.clients[id] = c
 	s.cmu.Unlock()
-	ctx, cancel := context.WithTimeout(context.Background(), 5*time.Second)
+	ctx, cancel := context.WithTimeout(context.Background(), 60*time.Second)
 	defer cancel()
 	conn, _, err := websocket.Dial(ctx, fmt.Sprintf("ws://%s/watch?c=%d", s.W.Addr(), id), nil)
 	if err != nil {
@@ -366,7 +366,7 @@ func (s *Session) Quiesce(idle, timeout time.Duration) bool {
 	}
 	// the server's write returning does not mean the client goroutine has read the message yet: give every live
 	// client the time to catch up with what the server wrote to it (a real loss still shows: the wait times out)
-	catchUp := time.Now().Add(15 * time.Second)
+	catchUp := time.Now().Add(30 * time.Second)
 	for time.Now().Before(catchUp) {
 		s.mu.Lock()
 		written := map[int]int{}
@@ -422,8 +422,8 @@ func (s *Session) Shutdown() {
 		if err != nil {
 			s.RunErr = err.Error()
 		}
-	case <-time.After(40 * time.Second):
-		s.RunErr = "run() did not return within 40 s"
+	case <-time.After(120 * time.Second):
+		s.RunErr = "run() did not return within 120 s"
 	}
 	s.closeWG.Wait()
 }
@@ -501,7 +501,7 @@ func RunScript(work string, seed int64, perturb bool, script []Op) (map[string]a
 		case "usleep":
 			time.Sleep(time.Duration(op.Ms) * time.Microsecond)
 		case "quiesce":
-			s.Quiesce(200*time.Millisecond, 30*time.Second)
+			s.Quiesce(200*time.Millisecond, 90*time.Second)
 		case "close":
 			s.CloseAsync()
 		case "close_wait":
